@@ -106,6 +106,9 @@ const CPP_KEYWORDS: &[&str] = &[
     "wchar-t", "while", "xor", "xor-eq",
 ];
 
+/// Quick tier: three of the keywords that contain `_`.
+const QUICK_MULTIWORD: &[&str] = &["const-cast", "char8-t", "and-eq"];
+
 const POSITIONS: &[&str] = &[
     "record-name",
     "record-field",
@@ -892,6 +895,15 @@ fn main() {
         }
     }
     if !thorough {
+        // keywords spelled with `_` (kebab `-` in WIT) at four places where names go through the identifier escaper
+        for (pos, export) in [("record-field", false), ("param-name", true), ("interface-name", false)] {
+            cases.push(kw_case("keyword", pos, export, QUICK_MULTIWORD));
+            kw_worlds += 1;
+        }
+        cases.push(kw_case("keyword", "namespace-name", true, &QUICK_MULTIWORD[..1]));
+        kw_worlds += 1;
+    }
+    if !thorough {
         // quick: every third corpus entry and the export-side / mixed collision worlds only
         let mut k = 0usize;
         cases.retain(|c| {
@@ -1044,7 +1056,7 @@ fn main() {
         "exhaustive": only.is_none(),
         "bounds": {
             "corpus": format!("{} of the {} entries of tests/codegen found by the discover_tests rule ({} declared exclusions removed{})", n_corpus_run, corpus.len() + excluded.len(), excluded.len(), if thorough { "" } else { "; quick takes every third remaining entry" }),
-            "keywords": if thorough { format!("all {} C++20 keywords and {} generator-reserved identifiers {:?} x {} name positions x import/export: one world per (position, direction) containing every name of the list (one world per name for world / package / namespace names); failing batches are re-run one name at a time", CPP_KEYWORDS.len(), RESERVED.len(), RESERVED, POSITIONS.len()) } else { format!("the 10 keywords {:?} in one world per (position, direction), {} name positions x import/export (one keyword for world / package / namespace names); failing batches are re-run one keyword at a time", &CPP_KEYWORDS[..10], POSITIONS.len()) },
+            "keywords": if thorough { format!("all {} C++20 keywords and {} generator-reserved identifiers {:?} x {} name positions x import/export: one world per (position, direction) containing every name of the list (one world per name for world / package / namespace names); failing batches are re-run one name at a time", CPP_KEYWORDS.len(), RESERVED.len(), RESERVED, POSITIONS.len()) } else { format!("the 10 keywords {:?} in one world per (position, direction), {} name positions x import/export (one keyword for world / package / namespace names), plus the multi-word keywords {:?} as record fields (import), parameters (export), interface names (import) and namespace (export); failing batches are re-run one keyword at a time", &CPP_KEYWORDS[..10], POSITIONS.len(), QUICK_MULTIWORD) },
             "collisions": format!("{} of {} catalogue worlds (mangling collisions{})", n_collision_run, collisions.len(), if thorough { "" } else { "; quick skips the import-only variants" }),
         },
         "positions": POSITIONS,
